@@ -182,8 +182,29 @@ func vkLoad(dir string, white []string) (*BlockList, error) {
 
 var vkQueryAlphabet = vkNames(4, true)
 
+// vkBehaviourMemo: Exists() reads nothing but the three maps, so the verdict for a
+// given (reloaded lists, original lists, expected entries, whitelist) is computed on
+// the real objects once and remembered (final states repeat across schedules).
+var vkBehaviourMemo = map[string]string{}
+
 // vkSameBehaviour compares two instances (and the reference on `entries`) on the whole query alphabet.
 func vkSameBehaviour(fresh, orig *BlockList, entries, white []string) string {
+	key := strings.Join(vkMem(fresh), " ") + "|"
+	if orig != nil {
+		key += strings.Join(vkMem(orig), " ")
+	} else {
+		key += "-"
+	}
+	key += "|" + strings.Join(entries, " ") + "|" + strings.Join(white, " ")
+	if v, ok := vkBehaviourMemo[key]; ok {
+		return v
+	}
+	v := vkSameBehaviourSlow(fresh, orig, entries, white)
+	vkBehaviourMemo[key] = v
+	return v
+}
+
+func vkSameBehaviourSlow(fresh, orig *BlockList, entries, white []string) string {
 	ref := vkListOf(entries, white)
 	for _, q := range vkQueryAlphabet {
 		want := vkRefBlocked(ref, q)
@@ -328,6 +349,7 @@ const vkIdentityKey = "reload-identity:entry-covered-by-listed-parent-is-not-rel
 
 type vkPScenario struct {
 	Name    string   `json:"name"`
+	Bound   int      `json:"bound"`
 	White   []string `json:"white"`
 	Prefill []string `json:"prefill"`
 	Threads []vkPOp  `json:"threads"`
@@ -400,11 +422,26 @@ func vkPersistScenarioFn(sc vkPScenario, side *vkPSide) sched.Scenario {
 		seen := map[string]bool{strings.Join(vkMem(b), " "): true}
 		_, existed := vkReadLocal(dir)
 		results := make([]int, len(sc.Threads))
-		vos.Plan = vos.NewPlan()
+		plan := vos.NewPlan()
+		vos.Plan = plan
+		localPath := filepath.Join(dir, "local")
+		logged, dirty := 0, true
 		// At every scheduling point (= every possible interruption of the process) the
 		// list on disk must be a complete list that memory actually held at some moment.
+		// Every logged file operation has been executed when a monitor call sees it (vos
+		// logs right before executing, with no scheduling point in between); `local` is
+		// re-read whenever an operation naming it was logged since the last look.
 		r.Monitor = func() string {
 			seen[strings.Join(vkMem(b), " ")] = true
+			for ; logged < len(plan.Log); logged++ {
+				if op := plan.Log[logged]; op.Path == localPath || op.Path2 == localPath {
+					dirty = true
+				}
+			}
+			if !dirty {
+				return ""
+			}
+			dirty = false
 			content, ok := vkReadLocal(dir)
 			if !ok {
 				if existed {
@@ -471,27 +508,46 @@ func vkPersistOps(thorough bool) []vkPOp {
 	return ops
 }
 
+// vkPersistScenarios: every multiset of two and of three single-operation threads.
+// quick: 8 operations; pairs on 3 initial lists, triples on 2; preemption bound 2.
+// thorough: 12 operations; pairs on 3 initial lists at bound 3; triples on 3 initial
+// lists at bound 2, and the triples of the 8 quick operations on one list at bound 3.
 func vkPersistScenarios(thorough bool) []vkPScenario {
+	quickOps := vkPersistOps(false)
 	ops := vkPersistOps(thorough)
-	prefills := [][]string{nil, {"b.", "notb."}, {"a.b.", "*.b."}}
+	prefills := [][]string{{"b.", "notb."}, nil, {"a.b.", "*.b."}}
 	var out []vkPScenario
-	// two threads: every multiset of two operations
-	for _, p := range prefills {
+	pairs := func(ops []vkPOp, p []string, bound int) {
 		for a := 0; a < len(ops); a++ {
 			for b := a; b < len(ops); b++ {
-				out = append(out, vkPScenario{White: vkWhite, Prefill: p, Threads: []vkPOp{ops[a], ops[b]}})
+				out = append(out, vkPScenario{Bound: bound, White: vkWhite, Prefill: p, Threads: []vkPOp{ops[a], ops[b]}})
 			}
 		}
 	}
-	// three threads: every multiset of three operations
-	for _, p := range prefills {
+	triples := func(ops []vkPOp, p []string, bound int) {
 		for a := 0; a < len(ops); a++ {
 			for b := a; b < len(ops); b++ {
 				for c := b; c < len(ops); c++ {
-					out = append(out, vkPScenario{White: vkWhite, Prefill: p, Threads: []vkPOp{ops[a], ops[b], ops[c]}})
+					out = append(out, vkPScenario{Bound: bound, White: vkWhite, Prefill: p, Threads: []vkPOp{ops[a], ops[b], ops[c]}})
 				}
 			}
 		}
+	}
+	if !thorough {
+		for _, p := range prefills {
+			pairs(ops, p, 2)
+		}
+		for _, p := range prefills[:2] {
+			triples(ops, p, 2)
+		}
+	} else {
+		for _, p := range prefills {
+			pairs(ops, p, 3)
+		}
+		for _, p := range prefills {
+			triples(ops, p, 2)
+		}
+		triples(quickOps, prefills[0], 3)
 	}
 	for i := range out {
 		out[i].Name = fmt.Sprintf("persist-%d", i)
@@ -547,12 +603,8 @@ func TestVerifC18Persist(t *testing.T) {
 		return
 	}
 	scs := vkPersistScenarios(c.Thorough())
-	bound := 2
-	if c.Thorough() {
-		bound = 3
-	}
-	c.Note(fmt.Sprintf("persist: %d scenarios (all multisets of 2 and of 3 single-operation threads over %d operations x 3 initial lists), preemption bound %d, whitelist %v",
-		len(scs), len(vkPersistOps(c.Thorough())), bound, vkWhite))
+	c.Note(fmt.Sprintf("persist: %d scenarios (multisets of 2 and of 3 single-operation threads over %d operations, up to 3 initial lists), whitelist %v",
+		len(scs), len(vkPersistOps(c.Thorough())), vkWhite))
 	for i, sc := range scs {
 		if !c.Mine(i) {
 			continue
@@ -561,7 +613,7 @@ func TestVerifC18Persist(t *testing.T) {
 			c.Cap(fmt.Sprintf("persist: time budget reached after scenario %d of %d in this shard's stride", i, len(scs)))
 			break
 		}
-		res := sched.Explore(sched.Config{Name: sc.Name, Bound: bound, Horizon: 5000, Stop: c.OverBudget}, vkPersistScenarioFn(sc, side))
+		res := sched.Explore(sched.Config{Name: sc.Name, Bound: sc.Bound, Horizon: 5000, Stop: c.OverBudget}, vkPersistScenarioFn(sc, side))
 		if res.HarnessErr != "" {
 			c.HarnessError(res.HarnessErr)
 			return
@@ -579,13 +631,13 @@ func TestVerifC18Persist(t *testing.T) {
 				c.DistinctStr("nontrivial", "persist|"+sc.String()+"|"+o)
 			}
 		}
-		c.Outcome(fmt.Sprintf("persist:threads=%d outcomes=%d", len(sc.Threads), len(res.Outcomes)))
+		c.Outcome(fmt.Sprintf("persist:threads=%d bound=%d outcomes=%d", len(sc.Threads), sc.Bound, len(res.Outcomes)))
 		if i%61 == 0 {
-			c.Sample(map[string]any{"unit": "persist", "scenario": sc.String(), "schedules": res.Executions, "distinct_outcomes": len(res.Outcomes), "max_points": res.MaxPoints, "preemption_bound": bound})
+			c.Sample(map[string]any{"unit": "persist", "scenario": sc.String(), "schedules": res.Executions, "distinct_outcomes": len(res.Outcomes), "max_points": res.MaxPoints, "preemption_bound": sc.Bound})
 		}
 		for _, v := range res.Violations {
 			c.Violation("persist:"+sc.String()+":"+vkFirstLine(v.Message), fmt.Sprintf("%s\n  scenario: %s\n  schedule=%v\n  trace: %s", v.Message, sc, v.Choices, strings.Join(v.Trace, " ")),
-				map[string]any{"unit": "persist", "scenario": sc, "choices": v.Choices, "bound": bound})
+				map[string]any{"unit": "persist", "scenario": sc, "choices": v.Choices})
 			break
 		}
 		if c.NumViolations() >= 8 {
